@@ -120,6 +120,14 @@ func runBatch(r *core.Run) {
 		}
 		return datacoding.CMPPDataCoding(n)
 	}
+	// the log level is a deployment's choice; the result of a request must not depend on it
+	if c.Prob(1, 3) {
+		lv := logger.Level(c.Intn(7))
+		logger.SetLevel(lv)
+		defer logger.SetLevel(logger.LevelTrace)
+		r.Probe("log_level_raised")
+		r.Event("log level %d", int(lv))
+	}
 	// candidates
 	nc := 1 + c.Size(5, 1, 2)
 	var cands []int
